@@ -194,6 +194,9 @@ class ImageBatch(DataTensor):
                 raise AssertionError(f"expected split 'data' to be tuple or list, got {type(data)}")
             if type(grid) not in (tuple, list):
                 raise AssertionError(f"expected split 'grid' to be tuple or list, got {type(grid)}")
+            if grid and isinstance(grid[0], Grid):
+                # Not split along batch dimension, every part contains data of all images
+                grid = [grid] * len(data)
             if len(grid) != len(data):
                 raise AssertionError(
                     f"expected 'grid' tuple length to be equal batch size, but {len(grid)} != {len(data)}"
